@@ -56,9 +56,18 @@ AtomsTiny == {Null, u1, sa}
 AtomsSmall == {Null, True, u0, u1, u256, f15, sEmpty, sab}
 AtomsWide == {Null, True, False, u0, u1, i1, f1, u255, u256, u65536, u2p32, im1, im129, im32769, im2p31m1,
               f15, fm0, u2p53, u2p53p1, f2p53, sEmpty, sa, sA, sab, sE, sSmile, sCtl, sQuote}
-KeysSmall == {kEmpty, ka, kA, kab, kB}
+KeysSmall == {kEmpty, ka, kA, kab, kB, kb}
 KeysWide == {kEmpty, ka, kA, kb, kab, kE, kB}
 ObjValsSmall == {Null, u1, u256, sab}
+
+\* hand-picked shapes that width-2 enumeration does not reach: a case variant before an unrelated key
+\* before the exact key; a longer key sorting before a shorter one; multi-byte keys side by side
+kAb == <<65, 98>>   kZed == <<90, 101, 100>>   kEb == <<195, 169, 98>>   kaa == <<97, 97>>
+ExtraDocs == {Obj(<< <<kA, u1>>, <<kB, sab>>, <<ka, Null>> >>), Obj(<< <<kAb, u1>>, <<kZed, u256>>, <<kab, sab>> >>),
+              Obj(<< <<kaa, u1>>, <<kb, u256>> >>), Obj(<< <<kaa, Arr(<<u1>>)>>, <<kab, Null>>, <<kb, sab>> >>),
+              Obj(<< <<kE, Null>>, <<kEb, True>> >>), Obj(<< <<ka, Null>>, <<kE, False>>, <<kEb, sE>> >>),
+              Arr(<<u1, f1, i1, u1>>), Arr(<<f0, fm0, u0>>), Arr(<<Arr(<<u1>>), Arr(<<f1>>), Arr(<<u1>>)>>),
+              Obj(<< <<ka, Arr(<<u1, u2>>)>>, <<kb, Obj(<< <<ka, sa>> >>)>> >>)}
 
 \* level-1 documents: containers of atoms
 L1(atoms, keys, ovals, w) == Arrays(atoms, w) \cup Objects(keys, ovals, w)
@@ -79,6 +88,8 @@ PairDocs ==
         Arr(<<fm0>>), Arr(<<u0>>), Arr(<<u2p53p1>>), Arr(<<f2p53>>), Arr(<<u2p53>>),
         \* adjacent payload-free scalars of different types; longer lists sharing elements in another order
         f0, Arr(<<f0>>), ftiny, fmtiny, Arr(<<ftiny, u1>>), Arr(<<u0, u2>>), Arr(<<fmtiny>>),
+        Arr(<<Arr(<<u1, u1, u2>>)>>), Arr(<<Arr(<<u1, u2>>), u2>>), Arr(<<Arr(<<u2, u1>>), Arr(<<u1>>)>>), Arr(<<Obj(<< <<ka, u1>>, <<kb, u2>> >>)>>),
+        Obj(<< <<ka, Arr(<<u1, u1, u2>>)>> >>), Obj(<< <<ka, u1>>, <<kb, Arr(<<u2>>)>> >>),
         Arr(<<True>>), Arr(<<True, False>>), Arr(<<False, True>>), Arr(<<Null, sEmpty>>), Arr(<<sEmpty>>), Arr(<<sEmpty, Null, False>>),
         Arr(<<u1, u2, sa>>), Arr(<<sa, u2, u1, u2>>), Arr(<<u2, sa, u1>>), Obj(<< <<ka, True>>, <<kb, False>> >>), Obj(<< <<ka, True>> >>)}
 
@@ -119,7 +130,9 @@ NumI == {B8(0,0,0,0,0,0,0,0), B8(0,0,0,0,0,0,0,1), B8(0,0,0,0,0,0,0,127), B8(0,0
          B8(255,255,255,255,255,255,128,0), B8(255,255,255,255,255,255,127,255),
          B8(255,255,255,255,128,0,0,0), B8(255,255,255,255,127,255,255,255),
          B8(255,224,0,0,0,0,0,0), B8(255,223,255,255,255,255,255,255), B8(128,0,0,0,0,0,0,0), B8(128,0,0,0,0,0,0,1)}
-NumF == {B8(0,0,0,0,0,0,0,0), B8(128,0,0,0,0,0,0,0), B8(0,0,0,0,0,0,0,1), B8(0,15,255,255,255,255,255,255),
+NumF == {B8(191,224,0,0,0,0,0,0), B8(63,224,0,0,0,0,0,0), B8(191,248,0,0,0,0,0,0), B8(192,4,0,0,0,0,0,0), B8(64,4,0,0,0,0,0,0),
+         B8(188,176,0,0,0,0,0,0), B8(191,239,255,255,255,255,255,255),
+         B8(0,0,0,0,0,0,0,0), B8(128,0,0,0,0,0,0,0), B8(0,0,0,0,0,0,0,1), B8(0,15,255,255,255,255,255,255),
          B8(0,16,0,0,0,0,0,0), B8(63,240,0,0,0,0,0,0), B8(191,240,0,0,0,0,0,0), B8(63,248,0,0,0,0,0,0),
          B8(63,239,255,255,255,255,255,255), B8(64,111,224,0,0,0,0,0), B8(64,112,0,0,0,0,0,0),
          B8(67,63,255,255,255,255,255,255), B8(67,64,0,0,0,0,0,0), B8(67,64,0,0,0,0,0,1),
